@@ -15,6 +15,7 @@ mod c12;
 mod c13;
 mod c14;
 mod c15;
+mod c19;
 mod c20;
 
 pub struct Report {
@@ -42,6 +43,7 @@ fn main() {
     let mut r = Report::new();
     match prop {
         "C14" => { c14::run(&mut r); c20::run(&mut r) }
+        "C19" => c19::run(&mut r),
         "C20" => c20::run(&mut r),
         "C01" => c01::run_c01(&mut r),
         "C04" => c01::run_c04(&mut r),
